@@ -50,6 +50,18 @@ contract(M + 'divide_binomial', props=['C11'], pure=True,
          ensures=['len(ret) == 2', 'ret[0] + ret[1] == state'],
          note='conservation holds for whatever np.random.binomial returns')
 
+contract(M + 'divide_split_dict', props=['C11'], pure=True,
+         types={'state': 'Opt[Map[Atom,Tree]]', 'd1': 'Map[Atom,Tree]', 'd2': 'Map[Atom,Tree]', 'ret': 'Seq[Map[Atom,Tree]]'},
+         ensures=['len(ret) == 2',
+                  # a partition of the keys: every key of the mother goes to exactly one daughter, with its value;
+                  # no daughter holds a key the mother did not have
+                  'implies(not is_none(state), forall(lambda k: implies(k in some(state), (k in ret[0]) or (k in ret[1]))))',
+                  'implies(not is_none(state), forall(lambda k: implies((k in ret[0]) or (k in ret[1]), k in some(state))))',
+                  'forall(lambda k: not ((k in ret[0]) and (k in ret[1])))',
+                  'implies(not is_none(state), forall(lambda k: implies(k in ret[0], ret[0][k] == some(state)[k])))',
+                  'implies(not is_none(state), forall(lambda k: implies(k in ret[1], ret[1][k] == some(state)[k])))',
+                  'implies(is_none(state), forall(lambda k: not (k in ret[0]) and not (k in ret[1])))'])
+
 contract(M + 'divide_zero', props=['C11'], pure=True,
          types={'state': 'Tree', 'ret': 'Seq[Int]'},
          ensures=['len(ret) == 2', 'ret[0] == 0', 'ret[1] == 0'])
